@@ -12,7 +12,7 @@ import (
 // design models: shape, attribute keys one at a time, callbacks (see MC_PageTree.tla)
 var (
 	modelsQuick    = []string{"struct_d2_q", "struct_d3_q", "box_q", "box2_q", "rot_q", "mix_q", "cb_q", "cb1_q"}
-	modelsThorough = []string{"struct_d2_t", "struct_d3_t", "struct_d4_t", "box_t", "rot_t", "mix_t", "cb_t", "cb3_t"}
+	modelsThorough = []string{"struct_d2_t", "struct_d3_t", "struct_d4_t", "struct5_d2_t", "box_t", "rot_t", "mix_t", "cb_t", "cb3_t"}
 )
 
 func checkModels(ctx *core.Ctx) error {
@@ -54,6 +54,45 @@ var (
 	midTotals = []int{15, 16, 17, 18, 31, 32, 33, 47, 48, 49, 64, 240, 241, 255, 256, 257, 258, 271, 272, 273, 300, 511, 512, 513}
 	bigTotals = []int{4095, 4096, 4097, 4098, 4111, 4112, 4113, 4352}
 )
+
+// leadJobs: behaviours taken from a counter-example TLC found in the design
+// model (NoPanic, D = 2, 12 pages: the last node of a tail standing alone
+// behind a full run of D nodes of equal depth), re-sized for fan-out 16:
+// a sub-range of 15*256 + k*16 pages followed by 17-k pages gives the tail
+// <<2 x 16, 0>>.  Variant A meets it in collapse (root), variant B in the
+// first loop of merge (the sub-range sits one level deeper and 16 more pages
+// follow).
+func leadJobs(ctx *core.Ctx) []job {
+	nf := []int{}
+	a := &attrs{"A", "-", "-", "-"}
+	varA := &genRec{D: 2, Fired: [][]int{}, Order: [][]int{{2, 1}, {1, 2}}, Hist: []genOp{
+		{Op: "range", W: 1, Sub: 2, NF: nf},
+		{Op: "page", W: 2, ID: []int{2, 1}, A: a, NF: nf},
+		{Op: "page", W: 1, ID: []int{1, 2}, A: a, NF: nf},
+		{Op: "close", W: 1, NF: nf}}}
+	varB := &genRec{D: 2, Fired: [][]int{}, Order: [][]int{{3, 1}, {2, 2}, {1, 2}}, Hist: []genOp{
+		{Op: "range", W: 1, Sub: 2, NF: nf},
+		{Op: "range", W: 2, Sub: 3, NF: nf},
+		{Op: "page", W: 3, ID: []int{3, 1}, A: a, NF: nf},
+		{Op: "page", W: 2, ID: []int{2, 2}, A: a, NF: nf},
+		{Op: "page", W: 1, ID: []int{1, 2}, A: a, NF: nf},
+		{Op: "close", W: 1, NF: nf}}}
+	ks := []int{2, 15}
+	if ctx.Thorough() {
+		ks = []int{2, 3, 4, 5, 6, 7, 8, 9, 10, 11, 12, 13, 14, 15}
+	}
+	var jobs []job
+	for i, k := range ks {
+		n := 15*Fan*Fan + k*Fan
+		jobs = append(jobs, job{g: varA, sizes: []int{n, Fan + 1 - k}, origin: "model-lead/lone-node/collapse", judge: true})
+		// neighbours that must work
+		jobs = append(jobs, job{g: varA, sizes: []int{n, Fan - k}, origin: "model-lead/lone-node/neighbour", judge: true})
+		if i == 0 || ctx.Thorough() {
+			jobs = append(jobs, job{g: varB, sizes: []int{n, Fan + 1 - k, Fan}, origin: "model-lead/lone-node/merge", judge: true})
+		}
+	}
+	return jobs
+}
 
 func tinySizes(rng *rand.Rand, n int) []int {
 	out := make([]int, n)
@@ -108,11 +147,13 @@ func run(ctx *core.Ctx) error {
 	var jobs []job
 	rng := ctx.Rand("plan")
 	every := ctx.Pick(25, 6)
+	nflat := 0
 	for i := range small {
 		g := &small[i]
 		nb := nBlocks(g)
 		jobs = append(jobs, job{g: g, sizes: tinySizes(rng, nb), origin: "gen-small", judge: i%every == int(ctx.Seed)%every})
-		if nb == 1 && len(g.Hist) <= 3 {
+		if nb == 1 && len(g.Hist) <= 3 && nflat < 5 {
+			nflat++
 			// flat documents of every size around the powers of the fan-out
 			var ns []int
 			for n := 1; n <= ctx.Pick(40, 530); n++ {
@@ -153,6 +194,7 @@ func run(ctx *core.Ctx) error {
 			}
 		}
 	}
+	jobs = append(jobs, leadJobs(ctx)...)
 	outs, _, err := runJobs(ctx, jobs, "replay")
 	if err != nil {
 		return err
